@@ -64,7 +64,7 @@ RPow(a, n) == IF n = 0 THEN (IF IsBad(a) THEN a ELSE One)
               ELSE IF n > 0 THEN RMul(a, RPow(a, n - 1))
               ELSE RDiv(One, RPow(a, -n))
 
-\* comparisons are only meaningful on values that fit
+\* comparisons cross-multiply: callers must make sure both operands Fit the window
 RLess(a, b) == a[1] * b[2] < b[1] * a[2]
 RLeq(a, b)  == a[1] * b[2] <= b[1] * a[2]
 RSign(a)    == SgnI(a[1])
